@@ -84,6 +84,10 @@ class Prop(common.PropertyCheck):
         for _ in range(self.budget(40, 500)):
             yield {'cont': 'sample', 'D': rng.randrange(3, 6), 'N': rng.choice([1, 7]), 'form': rng.choice(['scalar', 'list', 'list']), 'seed': rng.randrange(1 << 30),
                    'at': rng.choice(['none', 'none', 'partial']), 'ag': 'none', 'res': 'none', 'bad': None, 'dt': 'I', 'presl': rng.choice(['tail', 'rev', 'mid'])}
+        # instruments with ten or more parameters (two-digit keyword numbers), settings taken from the file
+        for _ in range(self.budget(12, 150)):
+            yield {'cont': 'sample', 'D': rng.randrange(10, 14), 'N': rng.choice([1, 5]), 'form': rng.choice(['none', 'list', 'scalar']), 'seed': rng.randrange(1 << 30),
+                   'at': 'none', 'ag': rng.choice(['none', 'partial']), 'res': 'none', 'bad': None, 'dt': rng.choice(['I', 'F'])}
         for _ in range(self.budget(1, 5)):
             yield {'k': 'big', 'n': (1 << 20) * rng.choice([1, 2]) + rng.randrange(1, 5000), 'seed': rng.randrange(1 << 30)}
 
